@@ -13,7 +13,9 @@ RULE = ("one run = the real EtherXDP dispatcher byte code (generated and attache
         "FastEtherCat.register_sync_group, executed by the eBPF interpreter; a seeded "
         "adversary plays wire and user space for up to 200 passes: deliver an in-flight "
         "frame (FIFO or any order), lose one, inject a fresh frame (stamp 0) while fewer "
-        "than 3 of the group are in flight, deliver foreign frames; invariants after every "
+        "than 3 of the group are in flight, deliver foreign frames (incl. unregistered group "
+        "numbers from the slow path's range and numbers that alias a registered group in "
+        "their low 6/8/16/24/31 bits); invariants after every "
         "pass; distinct = distinct abstract states (registered?, counter parity, multiset "
         "of stamp-counter of the in-flight frames); this is seeded search, not the "
         "exhaustive breadth-first exploration the property text mentions")
@@ -34,7 +36,7 @@ TX, PASS = 3, 2
 
 def mkframe(group, ethertype_user, size, stamp=0, cmd0=0, ether=0x88A4, body=None):
     """a frame as user space sends it: identification datagram + filler datagram"""
-    payload = struct.pack("<HBBiHHHH", 0, cmd0, stamp, group, 0x8002, 0, ethertype_user, 0)
+    payload = struct.pack("<HBBIHHHH", 0, cmd0, stamp, group, 0x8002, 0, ethertype_user, 0)
     filler = body if body is not None else bytes((i * 5 + 1) & 0xff for i in range(size))
     payload += struct.pack("<BBiHH", 4, 0, 0x10000000, len(filler), 0) + filler + b"\0\0"
     payload = struct.pack("<H", (len(payload) - 2) | 0x1000) + payload[2:]
@@ -168,7 +170,19 @@ def run(tape, scenario):
         unreg_groups = []
         if scenario == "foreign" or tape.chance("c22/with-unregistered", 40):
             free = [g for g in range(64) if g not in groups]
-            unreg_groups = [tape.pick("c22/unreg", free), 64 + tape.draw("c22/big", 1000)]
+            kind = tape.draw("c22/big-kind", 4)
+            if kind == 0 or not groups:
+                big = 64 + tape.draw("c22/big", 1000)
+            elif kind == 1:
+                # what the slow path of the library uses as a group number
+                big = 2000 + tape.draw("c22/big-random", 1_000_000_000 - 2000)
+            else:
+                # a number that equals a registered group in its low 6/8/16/24/31 bits
+                shift = tape.pick("c22/alias-shift", [16, 8, 6, 24, 31])
+                k = 1 if shift == 31 else 1 + tape.draw("c22/alias-k", 3)
+                big = tape.pick("c22/alias-of", sorted(groups)) + (k << shift)
+                world.count("c22/unregistered-number-aliases-registered")
+            unreg_groups = [tape.pick("c22/unreg", free), big]
             for g in unreg_groups:
                 unreg[g] = []
         last_tx = {}  # unregistered group -> was its previous pass a re-transmission?
